@@ -14,6 +14,17 @@ COMMON_NOTE = ("Trusted: Lean 4.33 kernel (axioms ⊆ {propext, Classical.choice
                "fixed-offset zones, zip, libgit2, std::fs); f64 is modelled in ℚ and exact only on small dyadic values.")
 
 CLAIMS = {
+    "C03": {
+        "technique": "Lean 4 theorems on negate_expr_op / Op::negate (generated table) / conforms (involution, De Morgan, BETWEEN complement, verdict-level complement under per-type atom lemmas) + CLI correspondence + set-algebra oracle",
+        "text": ("Theorems for every condition tree and entry: double negation is the identity (over the generated Op::negate table), NOT "
+                 "over AND/OR is De Morgan, `not between` is the negation of `between`, A and B / A or B evaluate to the conjunction / "
+                 "disjunction of the sub-verdicts, and the verdict of a negated condition is the negated verdict (including error/short-"
+                 "circuit behaviour) whenever each comparison atom is complement-safe — discharged for integer, date and plain text "
+                 "comparisons; two counterexample theorems show the explicit hypotheses cannot be dropped (NaN literal; ordering operators on "
+                 "text, which the code answers false both ways). Precedence/bracket parsing and the cache transparency are decided by the "
+                 "correspondence and the set-algebra oracle over atom queries, not by proof."),
+        "ref": "DESIGN.md §4 C03",
+    },
     "C05": {
         "technique": "Lean 4 theorems on the TopN/Criteria model (refinement BTreeMap-of-echelons → stable insertion sort; total-preorder proof for Criteria) + CLI correspondence + permutation/sortedness oracle",
         "text": ("Theorems for every insertion history, key list and direction vector: Criteria::cmp is a total preorder; "
